@@ -189,8 +189,9 @@ CLAIMED['C12'] = dict(
         'default), and hash_coordinates likewise; a point hashes to its cell (via C11). "Exactly the touched cells" holds under the hypothesis that the touched cells '
         'are connected to the start cell. That hypothesis is PROVED (Props/C12b.v, 21 theorems) when the touched cells form a rectangle or an L-convex set of grid cells (4-neighbour moves suffice), '
         'the concrete _get_surrounding on geohash strings is proved to be the 8-neighbourhood of the integer cell index away from the grid border (all bases, all lengths), and for the geometric '
-        'closed-box overlap test the Niemeyer flood is proved to return exactly the cells sharing a point with an axis-aligned query box (with termination). NOT proved: connectivity for general '
-        'shapes, and that the implementation per-cell test (intersects_shape, C02) is geometric truth. Tied to the code '
+        'closed-box overlap test the Niemeyer flood is proved to return exactly the cells sharing a point with an axis-aligned query box (with termination). For a hole-free GeoBox QUERY the chain is closed inside Coq (Props/C12c.v, 12 theorems): composing C02b (box x box intersects = closed rectangles meet) with the C11 cell-box model, the implementation-model per-cell '
+        'test equals the geometric box test wherever the flood evaluates it (integer-scaled data, cells away from the lon-180 column: C12c_east_column_refuted shows equality fails there, finding D12), hence hashing such a box returns '
+        'exactly the cells sharing a point with it. NOT proved: connectivity for general shapes, and geometric truth of the per-cell test for query shapes other than boxes. Tied to the code '
         'by an in-Coq correspondence that instantiates the per-cell test with the implementation own answers over an enlarged window and compares with the model flood '
         'and the full touched set. H3 clauses: no theorem, fixed corpus only. Finding D12b (east column at lon 180).',
    note='Trusted: Coq kernel + vm_compute; FloodM mirrors the loop (translator tie, DESIGN 9.6, + correspondence); C11 codec model for neighbours; harness. No axioms.',
